@@ -233,7 +233,7 @@ func runC08(rc *RunCtx) {
 		return
 	}
 	// weights:       mint send receive sendlocked melt resolvemelt reclaim mintswap rotate
-	weights := []int{2, 5, 6, 3, 3, 2, 3, 1, 1}
+	weights := []int{2, 5, 6, 3, 3, 2, 3, 1, 1, 1, 0, 1} // ... remelt clock reload
 	rc.StepLoop(3, 14, func(i int) {
 		ww.step = i
 		if hasPath {
